@@ -5,6 +5,7 @@ import CtrlVerif.Props.C15GenObs
 import CtrlVerif.Props.C15GenForm
 import CtrlVerif.Props.C15GenKeys
 import CtrlVerif.Props.C15GenReduce
+import CtrlVerif.Props.C15Flag
 
 #print axioms CtrlVerif.C15.timescale_resp
 #print axioms CtrlVerif.C15.similarity_relations
@@ -84,3 +85,13 @@ import CtrlVerif.Props.C15GenReduce
 #print axioms CtrlVerif.C15Gen.generated_truncate_keeps
 #print axioms CtrlVerif.C15Gen.generated_matchdc_dcgain
 #print axioms CtrlVerif.C15Gen.generated_model_reduction_refusals
+#print axioms CtrlVerif.C15Flag.truthy_table
+#print axioms CtrlVerif.C15Flag.falsy_nonliteral
+#print axioms CtrlVerif.C15Flag.is_False_eq_not_truthy_of_pyBool
+#print axioms CtrlVerif.C15Flag.is_False_ne_not_truthy
+#print axioms CtrlVerif.C15Flag.similarityF_spelling
+#print axioms CtrlVerif.C15Flag.similarityF_falsy
+#print axioms CtrlVerif.C15Flag.similarityF_truthy
+#print axioms CtrlVerif.C15Flag.generated_similarityF_eq
+#print axioms CtrlVerif.C15Flag.similarityF_resp
+#print axioms CtrlVerif.C15Flag.falsy_relations
